@@ -117,7 +117,7 @@ Mods == { [f |-> "valid", v |-> x] : x \in {SomeSeq(<<>>), SomeSeq(<<"cm">>), So
         \cup { [f |-> "du", v |-> x] : x \in {"cm", "1000ft3", "s"} }
         \cup { [f |-> "dv", v |-> x] : x \in {Num(1), Num(2)} }
         \cup { [f |-> "min", v |-> x] : x \in {Num(0), Num(2)} }
-        \cup { [f |-> "max", v |-> x] : x \in {Num(1), Num(3)} }
+        \cup { [f |-> "max", v |-> x] : x \in {Num(0), Num(1), Num(3)} }
         \cup { [f |-> "minx", v |-> TRUE], [f |-> "maxx", v |-> TRUE] }
 Apply1(b, m) == [b EXCEPT ![m.f] = m.v]
 MaxArity == IF Pool = "full" THEN 3 ELSE IF Pool = "mid" THEN 2 ELSE 1
